@@ -306,6 +306,7 @@ def identities_unique(recs):
     last_atom = None
     prev = None
     ids = {}
+    atom_names = set()
     model = 0
     for r in recs:
         if r.raw is not None:
@@ -330,6 +331,11 @@ def identities_unique(recs):
         prev = (r.tag, k)
         # the same identity used by an ATOM residue and a HETATM residue (or by two residue names)
         ids.setdefault((model, k), set()).add((r.tag, r.resn))
+        # two atoms of one name (and alternate location) in one residue: two molecules under one identity
+        ak = (model, k, r.name, r.alt)
+        if ak in atom_names:
+            return False
+        atom_names.add(ak)
     return all(len(v) == 1 for v in ids.values())
 
 
